@@ -89,12 +89,12 @@ Proof.
   destruct (compute_required_slots sectors sectors_per_block) as [nblocks last_block].
   cbv zeta.
   match goal with |- context [if ?c then _ else _] => destruct c end; [exact H|].
+  destruct (nth_error _ 0) as [first|]; [|exact H].
+  destruct (new_record name ext kind dtype first last_sector) as [rec|e]; [|exact H].
   match goal with |- context [write_slices ?x1 ?x2 ?x3 ?x4 ?x5 ?x6 ?x7 ?x8 ?x9 ?x10] =>
     destruct (write_slices x1 x2 x3 x4 x5 x6 x7 x8 x9 x10) as [[sd1 bat1]|e] eqn:Ews end; [|exact H].
   apply geo_write_slices in Ews; [|exact H].
   pose proof (geo_bat_set sd1 bat1 Ews) as H2.
-  destruct (nth_error _ 0) as [first|]; [|exact H2].
-  destruct (new_record name ext kind dtype first last_sector) as [rec|e]; [|exact H2].
   destruct (find_slot _ bat1 all_slots) as [[[s off]|]|e]; cbn [fst].
   - now apply geo_upd.
   - now apply geo_bat_set.
